@@ -15,7 +15,7 @@ LEVEL = 'exploration'
 RULE = ('part X: every hierarchy of n<=N classes in definition order where class i takes any ordered subset of '
         'distinct earlier classes as bases (n<=5 exhaustive = 10 573 hierarchies, n=6 sampled), members '
         'and docstrings placed pseudo-randomly; part R: random hierarchies of 6-14 classes over 2-4 modules with '
-        'cross-module bases, Generic[T]/Base[T] bases and Exception roots. The same source is executed statement by '
+        'cross-module bases, Generic[T]/Base[T] bases, Exception roots and base names rebound by a later import. The same source is executed statement by '
         'statement by CPython (TypeError => inconsistent) and analysed by pydoctor. A hierarchy is non-trivial if some '
         'class has >=2 bases.')
 ASSUME = ['CPython 3.12 type() is the reference for linearisation; inspect.getdoc for inherited docstrings',
@@ -173,6 +173,16 @@ def _gen_random(seed: int, k: int) -> Dict[str, str]:
         srcs[m] += s
         where[name] = m
         mods[m].append(name)
+        # the name a base was written with is rebound after the class statement (Python evaluated the bases when the
+        # statement ran; what the name means later is irrelevant to this class)
+        plain = [b for b in bases if b in imported[m]]
+        if plain and r.random() < .3:
+            b = r.choice(plain)
+            others = [o for o in names[:i] if o != b and where[o] != m and o not in imported[m]]
+            if others:
+                o = r.choice(others)
+                srcs[m] += f'from {tag}m{where[o]} import {o} as {b}\n'
+                imported[m].discard(b)
     out = {}
     for m in range(nmod):
         head = 'from typing import Generic, TypeVar\nT = TypeVar("T")\n' if uses_typing[m] else ''
@@ -201,6 +211,10 @@ def _cpython(mods: Dict[str, str]) -> Tuple[Dict[str, Any], Dict[str, str]]:
                 except Exception as e:  # noqa: BLE001
                     if isinstance(st, ast.ClassDef):
                         failed[f'{modname}.{st.name}'] = f'{type(e).__name__}: {e}'
+                    else:
+                        # an import of a class CPython refused to create: from here on the names of this module are not
+                        # bound as written (a rebinding import may leave an older binding in place)
+                        failed.setdefault(f'{modname}.<import-failed>', str(st.lineno))
                     continue
                 if isinstance(st, ast.ClassDef):
                     classes[f'{modname}.{st.name}'] = mod.__dict__[st.name]
@@ -260,6 +274,9 @@ def _judge2(res: core.Res, mods: Dict[str, str], label: str, classes: Dict[str, 
             res.v('C05:class-missing', f'{full} is not documented as a class ({label})', **w)
             continue
         reported = [t for t in mro_msgs if t.startswith(f'{modname}:{lineno[full]}:')]
+        if f'{modname}.<import-failed>' in failed and lineno[full] > int(failed[f'{modname}.<import-failed>']) and 'consistent method resolution' not in failed.get(full, ''):
+            res.c('classes_unjudgeable')
+            continue
         if full in failed:
             err = failed[full]
             if 'consistent method resolution' in err or 'duplicate base' in err:
